@@ -45,12 +45,14 @@ def gen(tier, rng, shard, nshards):
         family = S.pick(rng, ["uniform", "uniform", "log", "outliers", "clusters", "repeated"])
         cond = float(S.pick(rng, [1.0, 10.0, 1e2, 1e4, 1e6]))
         cols = int(S.pick(rng, [0, 1, 3, 4]))
+        if 2 <= n <= 8 and rng.random() < 0.12:
+            cols = n  # a square right-hand-side block: as many columns as the operator has rows
         colspec = []
         for c in range(max(cols, 1)):
             colspec.append({"scale_exp": int(S.pick(rng, [-6, 0, 0, 0, 6])), "zero": bool(rng.random() < 0.12)})
         yield {"n": n, "dt": dt, "family": family, "cond": cond, "seed": S.seed(rng), "cols": cols, "colspec": colspec,
                "x0": S.pick(rng, ["none", "none", "zero", "random", "exact"]),
-               "precond": S.pick(rng, ["none", "none", "jacobi", "spd", "nystrom"]),
+               "precond": S.pick(rng, ["none", "none", "jacobi", "jacobi", "spd", "spd", "nystrom", "nystrom", "tiny-identity", "huge-identity"]),
                "tol": float(S.pick(rng, [1e-12, 1e-10, 1e-8, 1e-6, 1e-4, 1e-2, 1e-1])),
                "max_iters": int(S.pick(rng, [0, 1, 2, 3, 5, 8, 15, 30, n, 2 * n, 1000])),
                "via": S.pick(rng, ["cg", "cg", "cg", "inv"]), "wide_rhs": bool(rng.random() < 0.15), "opscale": float(S.pick(rng, [1.0, 1.0, 1.0, 1e-9, 1e9]))}
@@ -96,6 +98,9 @@ def build_problem(case):
     elif pk == "spd":
         G = rng.standard_normal((n, n)) + (1j * rng.standard_normal((n, n)) if cplx else 0)
         Pm = (G @ G.conj().T / n + np.eye(n)).astype(P.DT[dt])
+    elif pk in ("tiny-identity", "huge-identity"):
+        # a multiple of the identity: the iterates are those of plain CG, in whatever unit the preconditioner is expressed
+        Pm = ((1e-6 if pk.startswith("tiny") else 1e6) * np.eye(n)).astype(P.DT[dt])
     return M, b, x0, xstar, Pm, lam
 
 
